@@ -5,6 +5,7 @@ import (
 	"go/ast"
 	"go/token"
 	"go/types"
+	"os"
 	"regexp"
 	"regexp/syntax"
 	"sort"
@@ -1674,6 +1675,87 @@ func (c *boundsCtx) varargsArray(x ssa.Value) bool {
 	return ok && (al.Comment == "varargs" || al.Comment == "slicelit" || al.Comment == "complit")
 }
 
+// canonSite: a bounds site named by the definitions of its operands (no variable names).
+func canonSite(fnkey string, s boundSite) string {
+	defer func(d int, a bool) { renderDepth, renderAllocs = d, a }(renderDepth, renderAllocs)
+	renderDepth, renderAllocs = 6, true
+	var parts []string
+	switch x := s.in.(type) {
+	case *ssa.IndexAddr:
+		parts = []string{renderValue(x.X, 0), renderValue(x.Index, 0)}
+	case *ssa.Index:
+		parts = []string{renderValue(x.X, 0), renderValue(x.Index, 0)}
+	case *ssa.Slice:
+		lo, hi := "", ""
+		if x.Low != nil {
+			lo = renderValue(x.Low, 0)
+		}
+		if x.High != nil {
+			hi = renderValue(x.High, 0)
+		}
+		parts = []string{renderValue(x.X, 0), lo, hi}
+	default:
+		return ""
+	}
+	// a phi renders as "φ:type" only; add the shape of its definition so that two different loop
+	// variables of one function are told apart
+	var shapes []string
+	for _, v := range s.in.Operands(nil) {
+		if v == nil || *v == nil {
+			continue
+		}
+		val := *v
+		if bo, ok := val.(*ssa.BinOp); ok {
+			val = bo.X
+		}
+		if c, ok := val.(*ssa.Call); ok && len(c.Call.Args) > 0 {
+			val = c.Call.Args[0]
+		}
+		if ph, ok := val.(*ssa.Phi); ok {
+			shapes = append(shapes, phiShape(ph))
+		}
+	}
+	return fnkey + ":" + s.kind + ":" + strings.Join(parts, "|") + "#" + strings.Join(shapes, ";")
+}
+
+// phiShape: how a phi is defined, one level deep: constants, self±constant, self±len, another phi, other.
+func phiShape(ph *ssa.Phi) string {
+	set := map[string]bool{}
+	for _, e := range ph.Edges {
+		switch x := e.(type) {
+		case *ssa.Const:
+			set[x.String()] = true
+		case *ssa.Phi:
+			if x == ph {
+				continue
+			}
+			set["φ"] = true
+		case *ssa.BinOp:
+			side := "other"
+			if x.X == ssa.Value(ph) {
+				side = "self"
+			} else if _, isPhi := x.X.(*ssa.Phi); isPhi {
+				side = "φ"
+			}
+			if k, isK := constInt(x.Y); isK {
+				set[fmt.Sprintf("%s%s%d", side, x.Op, k)] = true
+			} else if c, isC := x.Y.(*ssa.Call); isC && isCallTo(c, "builtin", "", "len") {
+				set[side+x.Op.String()+"len"] = true
+			} else {
+				set[side+x.Op.String()+"v"] = true
+			}
+		default:
+			set[fmt.Sprintf("%T", e)] = true
+		}
+	}
+	var ks []string
+	for k := range set {
+		ks = append(ks, k)
+	}
+	sort.Strings(ks)
+	return "{" + strings.Join(ks, ",") + "}"
+}
+
 // checkBounds runs the prover over fn and reports one obligation per site.
 func checkBounds(p *Prog, r *Report, rule string, fn *ssa.Function, audited map[string]string) (proved, unproved int) {
 	c := newBoundsCtx(p, fn)
@@ -1713,8 +1795,19 @@ func checkBounds(p *Prog, r *Report, rule string, fn *ssa.Function, audited map[
 			continue
 		}
 		if reason, isAud := audited[site]; isAud {
+			if os.Getenv("SCALINT_LEARN") != "" {
+				fmt.Fprintf(os.Stderr, "LEARN-AUDITCANON\t%q: %q,\n", canonSite(key, s), site)
+			}
 			r.Audit(rule, site, pos, reason)
 			continue
+		}
+		// the audited entry is named by the source expression; the same site written with other
+		// variable names (or through a named local) is recognised by its rendering by definition
+		if src, ok := auditCanon[canonSite(key, s)]; ok {
+			if reason, isAud := audited[src]; isAud {
+				r.Audit(rule, site, pos, reason+" (audited as "+src[strings.LastIndex(src, ":")+1:]+")")
+				continue
+			}
 		}
 		unproved++
 		r.Fail(rule, site, pos, s.kind+" expression "+s.expr+" is not guarded: "+why+" (no dominating length/index check and no API contract establishes it; a crafted input can make it panic)")
